@@ -398,7 +398,7 @@ class Verdict:
         return 1 if self.violations else 0
 
 
-SUITE_PROPS = ("C01", "C02", "C03", "C07", "C09", "C10", "C11", "C12", "C13", "C15", "C20")
+SUITE_PROPS = ("C01", "C02", "C03", "C07", "C09", "C10", "C11", "C12", "C13", "C15", "C17", "C20")
 SUITE_COV = {}
 
 
